@@ -24,6 +24,7 @@ from pydiverse.common import (
 )
 from pydiverse.transform._internal.backend.table_impl import TableImpl
 from pydiverse.transform._internal.backend.targets import Polars, SqlAlchemy, Target
+from pydiverse.transform._internal.errors import NotSupportedError
 from pydiverse.transform._internal.ops import ops
 from pydiverse.transform._internal.ops.op import Ftype
 from pydiverse.transform._internal.pipe.table import Cache
@@ -59,6 +60,9 @@ class Query:
 
 
 class SqlImpl(TableImpl):
+    # types whose literals cannot be rendered by the dialect (no corresponding SQL type)
+    unsupported_literal_types: tuple[type[Dtype], ...] = ()
+
     def __new__(cls, *args, **kwargs) -> "SqlImpl":
         engine: str | sqa.Engine = inspect.signature(cls.__init__).bind(None, *args, **kwargs).arguments["conf"].engine
 
@@ -331,6 +335,11 @@ class SqlImpl(TableImpl):
             return res
 
         elif isinstance(expr, LiteralCol):
+            if isinstance(types.without_const(expr.dtype()), cls.unsupported_literal_types):
+                raise NotSupportedError(
+                    f"literals of type `{types.without_const(expr.dtype())}` are not supported by the "
+                    f"{cls.backend_name} backend"
+                )
             return cls.compile_lit(expr) if compile_literals else expr.val
 
         elif isinstance(expr, Cast):
